@@ -15,6 +15,7 @@ import TxVerif.Model.CrashFailOpt
 import TxVerif.Model.PQDriver
 import TxVerif.Model.PQCounters
 import TxVerif.Model.PQQueueDriver
+import TxVerif.Model.PQQueueConcDriver
 open TxVerif
 
 def choiceStr : Choice → String
@@ -306,6 +307,29 @@ def EngTotals.add (t : EngTotals) (st : EngSt) (endOfProgram : Bool) : EngTotals
     relFailed := t.relFailed + st.resizesRelFailed, adopted := t.adopted + st.resizesAdopted,
     diffPlain := t.diffPlain + st.absorbDiffPlain, diffResize := t.diffResize + st.absorbDiffResize }
 
+/-- pqconc mode: replay the controlled producer/consumer schedules of the real queue (`vh pqconc`) on the
+    two-thread queue model (Model/PQQueueConc.lean, Model/PQQueueConcDriver.lean): every recorded step must be
+    enabled in the model, every blocked thread disabled, every call must give the recorded result and the
+    recorded lock state. -/
+partial def pqconcLoop (h : IO.FS.Stream) (acc : List String) (prog : String) (checked mism progs skipped : Nat) :
+    IO (Nat × Nat × Nat × Nat) := do
+  let line ← h.getLine
+  if line.isEmpty then return (checked, mism, progs, skipped)
+  let l := line.trimAscii.toString
+  if l.startsWith "program " then pqconcLoop h [] l checked mism progs skipped
+  else if l == "end" then
+    let seed : Nat := (((prog.splitOn "seed=").getD 1 "").toNat?).getD 0
+    let (n, err, skip) := concProgram seed acc.reverse
+    match err, skip with
+    | some e, _ => do
+      IO.println s!"MISMATCH {prog} {e}"
+      pqconcLoop h [] "" (checked + n) (mism + 1) (progs + 1) skipped
+    | none, some w => do
+      IO.println s!"SKIP {prog} {w}"
+      pqconcLoop h [] "" (checked + n) mism (progs + 1) (skipped + 1)
+    | none, none => pqconcLoop h [] "" (checked + n) mism (progs + 1) skipped
+  else pqconcLoop h (l :: acc) prog checked mism progs skipped
+
 /-- engine mode: programs are delimited by `program …` / `end` lines -/
 partial def engLoop (h : IO.FS.Stream) (st : EngSt) (prog : String) (t : EngTotals) : IO EngTotals := do
   let line ← h.getLine
@@ -336,6 +360,10 @@ def main (args : List String) : IO UInt32 := do
     return (if mism == 0 then 0 else 1)
   | "pqmodel" =>
     let (checked, mism, progs, skipped) ← pqmodelLoop stdin (args.drop 1 == ["strict"]) none false "" 0 0 0 0 0
+    IO.println s!"DONE checked={checked} mismatches={mism} bad=0 programs={progs} skipped={skipped}"
+    return (if mism == 0 then 0 else 1)
+  | "pqconc" =>
+    let (checked, mism, progs, skipped) ← pqconcLoop stdin [] "" 0 0 0 0
     IO.println s!"DONE checked={checked} mismatches={mism} bad=0 programs={progs} skipped={skipped}"
     return (if mism == 0 then 0 else 1)
   | "crash" =>
